@@ -1,6 +1,7 @@
 SPEC = {
     "id": "C11",
     "n": {"quick": 600, "thorough": 20000},
+    "search": {"n": 40000, "timeout": 900},
     "components": {"1": "connection JSON of a page", "2": "error / error class of a page query",
                    "3": "pages of a forward walk", "4": "pages of a backward walk"},
     "corr_name": "Pagination.Model (get_connection, walk_forward, walk_backward) vs graphql.Execute on a thunder-managed paginated field",
